@@ -6,7 +6,13 @@
 (* which takes the inner/outer dimensions explicitly).                     *)
 (* MInv / determinant / PSD for sizes 1..3 (closed forms, exact).       *)
 (***************************************************************************)
-EXTENDS Rational
+EXTENDS Rational, TLC
+
+\* TLC evaluates [i \in S |-> e] lazily (e is re-evaluated at every application), so nested matrix
+\* products would be recomputed exponentially often.  TLCEval forces and caches a value; MkMat / MkVec
+\* build fully evaluated matrices / vectors.
+MkVec(n, F(_))       == TLCEval([i \in 1..n |-> F(i)])
+MkMat(r, c, F(_, _)) == TLCEval([i \in 1..r |-> TLCEval([j \in 1..c |-> F(i, j)])])
 
 Rows(A) == Len(A)
 Cols(A) == IF Len(A) = 0 THEN 0 ELSE Len(A[1])
@@ -15,22 +21,22 @@ RECURSIVE SumTo(_, _)
 \* sum_{k=1..n} f[k]   (f a sequence of rationals)
 SumTo(f, n) == IF n = 0 THEN Zero ELSE RAdd(SumTo(f, n - 1), f[n])
 
-ZeroMat(r, c) == [i \in 1..r |-> [j \in 1..c |-> Zero]]
-Ident(n)      == [i \in 1..n |-> [j \in 1..n |-> IF i = j THEN One ELSE Zero]]
-Diag(v)       == [i \in 1..Len(v) |-> [j \in 1..Len(v) |-> IF i = j THEN v[i] ELSE Zero]]
+ZeroMat(r, c) == MkMat(r, c, LAMBDA i, j : Zero)
+Ident(n)      == MkMat(n, n, LAMBDA i, j : IF i = j THEN One ELSE Zero)
+Diag(v)       == MkMat(Len(v), Len(v), LAMBDA i, j : IF i = j THEN v[i] ELSE Zero)
 
 \* A is r x k, B is k x c (dimensions explicit so that k = 0 or c = 0 work)
 MatMulD(A, B, r, k, c) ==
-  [i \in 1..r |-> [j \in 1..c |-> SumTo([t \in 1..k |-> RMul(A[i][t], B[t][j])], k)]]
+  MkMat(r, c, LAMBDA i, j : SumTo([t \in 1..k |-> RMul(A[i][t], B[t][j])], k))
 
 MatMul(A, B) == MatMulD(A, B, Rows(A), Cols(A), Cols(B))
-TrD(A, r, c) == [j \in 1..c |-> [i \in 1..r |-> A[i][j]]]
+TrD(A, r, c) == MkMat(c, r, LAMBDA j, i : A[i][j])
 Tr(A)        == TrD(A, Rows(A), Cols(A))
-MAdd(A, B)   == [i \in 1..Rows(A) |-> [j \in 1..Cols(A) |-> RAdd(A[i][j], B[i][j])]]
-MSub(A, B)   == [i \in 1..Rows(A) |-> [j \in 1..Cols(A) |-> RSub(A[i][j], B[i][j])]]
-MatVec(A, v) == [i \in 1..Rows(A) |-> SumTo([t \in 1..Len(v) |-> RMul(A[i][t], v[t])], Len(v))]
-VAdd(a, b)   == [i \in 1..Len(a) |-> RAdd(a[i], b[i])]
-VSub(a, b)   == [i \in 1..Len(a) |-> RSub(a[i], b[i])]
+MAdd(A, B)   == MkMat(Rows(A), Cols(A), LAMBDA i, j : RAdd(A[i][j], B[i][j]))
+MSub(A, B)   == MkMat(Rows(A), Cols(A), LAMBDA i, j : RSub(A[i][j], B[i][j]))
+MatVec(A, v) == MkVec(Rows(A), LAMBDA i : SumTo([t \in 1..Len(v) |-> RMul(A[i][t], v[t])], Len(v)))
+VAdd(a, b)   == MkVec(Len(a), LAMBDA i : RAdd(a[i], b[i]))
+VSub(a, b)   == MkVec(Len(a), LAMBDA i : RSub(a[i], b[i]))
 Dot(a, b)    == SumTo([t \in 1..Len(a) |-> RMul(a[t], b[t])], Len(a))
 
 MatBad(A)  == \E i \in 1..Rows(A) : \E j \in 1..Cols(A) : IsBad(A[i][j])
@@ -60,13 +66,13 @@ Sub3(A, i, j) ==
 
 \* inverse by adjugate; Undef entries if singular
 MInv(A) ==
-  LET d == Det(A) n == Rows(A) IN
+  LET d == TLCEval(Det(A)) n == Rows(A) IN
   CASE n = 1 -> << <<RDiv(One, d)>> >>
     [] n = 2 -> << <<RDiv(A[2][2], d), RDiv(RNeg(A[1][2]), d)>>,
                   <<RDiv(RNeg(A[2][1]), d), RDiv(A[1][1], d)>> >>
-    [] n = 3 -> [i \in 1..3 |-> [j \in 1..3 |->
-                   \* (adj A)[i][j] = (-1)^(i+j) * minor(j, i)
-                   RDiv(IF (i + j) % 2 = 0 THEN Sub3(A, j, i) ELSE RNeg(Sub3(A, j, i)), d)]]
+    [] n = 3 -> \* (adj A)[i][j] = (-1)^(i+j) * minor(j, i)
+                MkMat(3, 3, LAMBDA i, j :
+                   RDiv(IF (i + j) % 2 = 0 THEN Sub3(A, j, i) ELSE RNeg(Sub3(A, j, i)), d))
 
 \* positive semi-definite (symmetric A): all principal minors >= 0
 PSD(A) ==
